@@ -725,7 +725,7 @@ def rule_regex_builder(run, F, cfg):
             chains.append((kind, tuple(sorted(cfgd)), tuple(sorted(args_.items())), g.loc(b)))
     want_one = ("case_insensitive", "unicode")
     want_set = ("case_insensitive", "size_limit", "unicode")
-    ok_c = len(chains) >= 4 and all((c[1] == want_one) if c[0] == "one" else (c[1] == want_set) for c in chains)
+    ok_c = {c[0] for c in chains} == {"one", "set"} and all((c[1] == want_one) if c[0] == "one" else (c[1] == want_set) for c in chains)
     ci = {dict(c[2]).get("case_insensitive") for c in chains}
     sl = {dict(c[2]).get("size_limit") for c in chains if c[0] == "set"}
     run.ob("C02.3.regex-translation", "builders-configured-alike", ok_c and len(ci) == 1 and None not in ci and len(sl) == 1 and None not in sl,
